@@ -25,3 +25,15 @@
 (define-fun TX_COMMITTED () Int 2)
 (define-fun TX_DISCARDED () Int 3)
 ; ghost: opTx Val
+(declare-datatype Proto ((mkproto (p_txState (Array Val Int)) (p_txUpdate (Array Val Bool)) (p_txCursors (Array Val Int))
+  (p_openTx Int) (p_openCur Int) (p_commits Int) (p_begins Int) (p_opTx Val) (p_curOpen (Array Val Bool)))))
+; statefun: protoSnap txState txUpdate txCursors openTx openCur commits begins opTx curOpen
+(define-fun protoSnap ((a (Array Val Int)) (b (Array Val Bool)) (c (Array Val Int)) (d Int) (e Int) (f Int) (g Int) (h Val) (i (Array Val Bool))) Proto
+  (mkproto a b c d e f g h i))
+; statefun: txReady txState opTx
+(define-fun txReady ((s (Array Val Int)) (o Val) (tx Val)) Bool (and (not (= tx vnil)) (= (select s tx) TX_OPEN) (= o tx)))
+; statefun: txWritable txState opTx txUpdate txCursors
+(define-fun txWritable ((s (Array Val Int)) (o Val) (u (Array Val Bool)) (c (Array Val Int)) (tx Val)) Bool
+  (and (not (= tx vnil)) (= (select s tx) TX_OPEN) (= o tx) (select u tx) (= (select c tx) 0)))
+; statefun: newStoreErr storeErr
+(define-fun newStoreErr ((now Bool) (before Bool)) Bool (and now (not before)))
